@@ -74,6 +74,64 @@ func (c *Ctx) reuseRun() map[string]*simpleVerdict {
 			}
 		}
 	}()
+	// ---- parser through ParseString (text entry point): every ordered pair, the same text twice included ------
+	wg.Add(1)
+	go func() {
+		defer wg.Done()
+		pool := []string{"a + b * c", "f(a, b)", "a +", "(a", "a b", "x IS NOT NULL", "a[1]", "2 + ", "max(1, 2", "1"}
+		ctor := c.MustFunc(pkgParsers, "", "NewExpressionParser")
+		pt := resultType(ctor)
+		render := func(m *mach, parser mv, s string) string {
+			m.steps = 0
+			r, out := callM(c, m, pt, "ParseString", parser, s)
+			if out.kind != "ok" {
+				return out.kind + ": " + out.why
+			}
+			if _, isNil := r.(mNilT); !isNil {
+				return "error " + errorCode(r)
+			}
+			vn, _ := callM(c, m, pt, "VariableNames", parser)
+			names, _ := stringsOfSlice(vn)
+			rt, _ := callM(c, m, pt, "ResultTokens", parser)
+			n := 0
+			if sl, ok := rt.(mSlice); ok {
+				n = len(sl.arr)
+			}
+			return fmt.Sprintf("program of %d tokens, variables %v", n, names)
+		}
+		fresh := map[string]string{}
+		for _, s := range pool {
+			m := newMach(c)
+			m.maxSteps = 3000000
+			p, out := m.Call(ctor)
+			if out.kind != "ok" {
+				mu.Lock()
+				note("parser", "", "NewExpressionParser: "+out.why)
+				mu.Unlock()
+				return
+			}
+			fresh[s] = render(m, p, s)
+		}
+		m := newMach(c)
+		m.maxSteps = 3000000
+		p, _ := m.Call(ctor)
+		for _, s1 := range pool {
+			for _, s2 := range pool {
+				render(m, p, s1)
+				got := render(m, p, s2)
+				mu.Lock()
+				switch {
+				case strings.HasPrefix(got, "opaque"):
+					note("parser", "", got)
+				case got != fresh[s2]:
+					note("parser", fmt.Sprintf("a parser that was given the text %q before answers %q with %s; a fresh parser answers %s", s1, s2, got, fresh[s2]), "")
+				default:
+					note("parser", "", "")
+				}
+				mu.Unlock()
+			}
+		}
+	}()
 	// ---- calculator: expression -> operations trace + result, with auto-variables ------------------
 	wg.Add(1)
 	go func() {
